@@ -797,6 +797,10 @@ class IRGenerator:
                 raise InvalidSpec(
                     'Cannot mark reference to nullable type as nullable.',
                     *loc)
+            if isinstance(unwrap_aliases(data_type)[0], Void):
+                # `Void?` is refused where it is written; an alias of Void
+                # is Void too.
+                raise InvalidSpec('Void cannot be marked nullable.', *loc)
 
     def _populate_struct_type_attributes(self, env, data_type):
         """
@@ -1328,6 +1332,8 @@ class IRGenerator:
                 raise InvalidSpec(
                     'Cannot mark reference to nullable type as nullable.',
                     *loc)
+            if isinstance(unwrapped_dt, Void):
+                raise InvalidSpec('Void cannot be marked nullable.', *loc)
             self._nullable_refs.append((data_type, loc))
             data_type = Nullable(data_type)
 
